@@ -13,12 +13,29 @@ Definition run_c (o : opts) (body : bytes) : bytes * bytes :=
   | _ => (str "skip", [])
   end.
 
-(** case kind T: a TCP session = the byte blobs of its connections in order; observation = final table *)
+(** case kind T: a TCP session = its connection attempts in order.  The number before ':' is the
+    scripted peer's event type: 3 = the attempt is refused; 2 / 7 = bytes then a reset (read error);
+    anything else = bytes (possibly none) then a clean close or a connection that stays open.
+    Observation = the retry pauses after each attempt, then the final table. *)
+Fixpoint num_of (l : bytes) (acc : N) : N :=
+  match l with
+  | [] => acc
+  | c :: t => if (48 <=? c) && (c <=? 57) then num_of t (10 * acc + (c - 48)) else acc
+  end.
+
+Definition tcp_event (s : bytes) : conn_event :=
+  match split_on 58 s [] with
+  | ty :: rest :: _ =>
+      let k := num_of ty 0 in
+      if k =? 3 then Refused
+      else Delivered (seg_bytes rest) (negb ((k =? 2) || (k =? 7)))
+  | _ => Delivered [] true
+  end.
+
 Definition run_t (o : opts) (body : bytes) : bytes * bytes :=
-  let blobs := map (fun s => match split_on 58 s [] with _ :: rest :: _ => seg_bytes rest | _ => [] end)
-                   (filter (fun s => negb (Nat.eqb (List.length s) 0)) (split 59 body)) in
-  match run_tcp_table o 0 [] blobs with
-  | Ok t => (str "ok", dump_table 0 t)
+  let evs := map tcp_event (filter (fun s => negb (Nat.eqb (List.length s) 0)) (split 59 body)) in
+  match run_tcp_loop o 0 [] evs with
+  | Ok (t, ps) => (str "ok", str "pauses=" ++ join [59] (map dec ps) ++ [35] ++ dump_table 0 t)
   | Panic _ => (str "panic", [])
   end.
 
